@@ -715,7 +715,7 @@ func c10ClientX(callers int, callback, closeRace, lateCaller bool, b Bounds) *Sc
 				var j Join
 				sentCB, closeStarted := false, false
 				for k := 0; k < callers; k++ {
-					m := fmt.Sprintf("m%d", k)
+					m := fmt.Sprintf("m%d\x01\a\x7f\U000e0001", k) // characters that JSON and Go quote differently
 					last := k == callers-1
 					j.Go(m, func() {
 						if lateCaller && last {
